@@ -382,6 +382,13 @@ VARIANTS = [
      "old": "                    while known_cap_name in parsed_seed:\n                        parsed_seed.remove(known_cap_name)\n",
      "new": "                    while known_cap_name in parsed_seed:\n                        LOG.debug('stripping %s', known_cap_name)\n"
             "                        parsed_seed.remove(known_cap_name)\n"},
+    # ---- round 9 mechanisms
+    {"name": "R2 add() keeps only the newest few URLs of a name", "file": REG, "expect": "C16.R2",
+     "old": "        vals = [value] + self.popall(key, [])\n", "new": "        vals = ([value] + self.popall(key, []))[:8]\n"},
+    {"name": "R2 caps client asks for the last URL granted under a name", "file": "hippolyzer/lib/base/network/caps_client.py", "expect": "C16.R2",
+     "old": "            cap_or_url = caps[cap_or_url]", "new": "            cap_or_url = caps.getall(cap_or_url)[-1]"},
+    {"name": "P R2 caps client asks for the first URL through getall", "file": "hippolyzer/lib/base/network/caps_client.py", "expect": "silent",
+     "old": "            cap_or_url = caps[cap_or_url]", "new": "            cap_or_url = caps.getall(cap_or_url)[0]"},
     # ---- documented limits
     {"name": "X only https URLs are tracked (validity filter is value-level)", "file": REG, "expect": "miss",
      "old": "cap_url.startswith('http')", "new": "cap_url.startswith('https')"},
